@@ -153,11 +153,11 @@ EAGER_VECTORS = [[], [1] * 40, [1, 0] * 20, [0, 1] * 20, [0, 2] * 20]
 
 
 @st.composite
-def cases(draw, op_kind=None):
+def cases(draw, op_kind=None, null_hazards=("argument",)):
     spec = draw(GS.specs(input_defaults=False, with_mutation=True if op_kind == "mutation" else None))
     mode = draw(st.sampled_from(["code", "sdl"]))
     eff = H.sdl_view(spec) if mode == "sdl" else spec
-    req = draw(GD.requests(eff, op_kind=op_kind, multi_op=False))
+    req = draw(GD.requests(eff, op_kind=op_kind, multi_op=False, null_hazards=null_hazards))
     world = {"salt": draw(st.integers(0, 10 ** 6)), "p_err": draw(st.sampled_from([0, 0, 7, 11])),
              "p_null": draw(st.sampled_from([0, 5, 9])), "p_null_item": draw(st.sampled_from([0, 4]))}
     nboom = draw(st.sampled_from([0, 0, 0, 1, 1, 2]))
